@@ -31,14 +31,22 @@ def run(tier):
     prog = load_core('systemd')
     ix = prog.unit(BLOCK_UNIT)
     global BUILDER
-    BUILDER = builder_name(ix)
-    rep.rule('R08.1', 'response length = min(P, max(0, size - offset)), P = MTU - 34; copy of exactly that many bytes from data + offset to payload', floor=4)
-    rep.rule('R08.2', "'more' flag (bit 15 of the length field) set iff size - offset > P; length field = payload length", floor=4)
-    rep.rule('R08.3', 'missing data or size 0 or offset at/past the end: empty payload, flag clear', floor=3)
+    try:
+        BUILDER = builder_name(ix)
+    except AnalysisBroken as e:
+        # the response builder no longer has the (record, context, request, data, size, offset) shape (e.g. it is handed
+        # parsed values): decide the same case table on the QueryLargeTlv cells themselves, with the platform's size and the
+        # request's offset as the symbols
+        BUILDER = None
+        rep.note('response builder not identified by signature (%s): case table decided on the QueryLargeTlv cells' % e)
+    rep.rule('R08.1', 'response length = min(P, max(0, size - offset)), P = MTU - 34; copy of exactly that many bytes from data + offset to payload', floor=4 if BUILDER else 1)
+    rep.rule('R08.2', "'more' flag (bit 15 of the length field) set iff size - offset > P; length field = payload length", floor=4 if BUILDER else 0)
+    rep.rule('R08.3', 'missing data or size 0 or offset at/past the end: empty payload, flag clear', floor=3 if BUILDER else 1)
     rep.rule('R08.4', 'QueryLargeTlv with sequence number 0 has no effect at all', floor=2)
     rep.rule('R08.5', 'response carries the request\'s sequence number; data/size/offset handed to the response builder are the platform\'s bytes for the requested type', floor=8)
-    for mtu_ok in ([True] if tier == 'quick' else [True, False]):
-        part1(rep, prog, ix, mtu_ok)
+    if BUILDER is not None:
+        for mtu_ok in ([True] if tier == 'quick' else [True, False]):
+            part1(rep, prog, ix, mtu_ok)
     part2(rep, prog, ix)
     return finish(rep, 'proof',
                   'sendLargeTlvResponse interpreted with size in [0,32768], offset in [0,65535], MTU in [576,9216] symbolic: its paths form a piecewise-linear case table that is '
@@ -137,74 +145,83 @@ def part1(rep, prog, ix, mtu_ok):
             rep.fail('R08.3', 'data-unchecked' + tag, 'a path builds the response without testing whether data is present', node=fn, function=BUILDER)
             continue
         have = dp0[0] == 'ptr'
-        # split the path along the oracle's case boundaries (only feasible sub-cases are checked)
-        cases = []
-        if not have:
-            cases.append(('nodata', []))
-        else:
-            cases.append(('nodata', [(('eq', S, ZERO), True)]))
-            cases.append(('past-end', [(('lt', ZERO, S), True), (('le', rest, ZERO), True)]))
-            cases.append(('last', [(('lt', ZERO, S), True), (('lt', ZERO, rest), True), (('le', rest, I.simp(P)), True)]))
-            cases.append(('more', [(('lt', ZERO, S), True), (('lt', I.simp(P), rest), True)]))
-        for cname, conds in cases:
-            st = st0.fork()
-            feasible = True
-            for cnd, truth in conds:
-                c = I.cmp(st, cnd[0], cnd[1], cnd[2])
-                if is_const(c):
-                    if (c[1] != 0) != truth:
-                        feasible = False
-                        break
-                    continue
-                if not I.assume(st, c, truth):
-                    feasible = False
-                    break
-            if not feasible:
-                continue
-            # tighten the interval of size-offset from the path's linear facts
-            if st.prove_le(ZERO, rest):
-                st.refine(rest, Dom(0, INF))
-            if st.prove_le(rest, ZERO):
-                st.refine(rest, Dom(-INF, 0))
-            ncase += 1
-            snap = Snap(st, sn0[0][0])
-            n = st.canon(I.simp(('sub', snap.length, C(HDR))))
-            lo, hi = st.canon(snap.byte(33)), st.canon(snap.byte(32))
-            copies = [e for e, _ in effects(st, 'memcpy') if e[1] == snap.d['obj'] and e[4] != snap.d['obj']]
-            desc = {'case': cname, 'size': repr(st.dom(S)), 'offset': repr(st.dom(O)), 'payload_len': short(n), 'length_field': [short(hi), short(lo)], 'copies': len(copies)}
-            if cname in ('nodata', 'past-end'):
-                okc0 = not copies or all(st.same(e[5], ZERO) for e in copies)
-                ok = st.same(n, ZERO) and st.same(lo, ZERO) and st.same(hi, ZERO) and okc0
-                rep.check(ok, 'R08.3', 'empty|%s%s' % (cname, tag),
-                          'with %s the response has payload length %s, length field %s %s, %d copies; expected an empty payload with the flag clear'
-                          % ('no data' if cname == 'nodata' else 'offset at or past the end', short(n), short(hi), short(lo), len(copies)),
-                          node=fn, function=BUILDER, sample=desc)
-                continue
-            c_more = cname == 'more'
-            want = I.simp(P) if c_more else rest
-            okn = st.prove_le(n, want) and st.prove_le(want, n)
-            rep.check(okn, 'R08.1', 'length|%s%s' % (cname, tag),
-                      'payload length is %s, expected %s (%s)' % (short(n), 'P = MTU-34' if c_more else 'size - offset', 'more remains' if c_more else 'final chunk'),
-                      node=fn, function=BUILDER, sample=desc)
-            okc = len(copies) == 1
-            if okc:
-                e = copies[0]
-                okc = st.same(e[2], C(HDR)) and e[3] == 'DATA' and st.same(e[4], O) and st.prove_le(e[5], n) and st.prove_le(n, e[5])
-            rep.check(okc, 'R08.1', 'copy|%s%s' % (cname, tag),
-                      'payload is not one copy of exactly the payload length from data + offset to frame offset 34: %s' % [(short(e[2]), e[3], short(e[4]), short(e[5])) for e in copies],
-                      node=fn, function=BUILDER)
-            nb0, nb1 = st.canon(mk_byte(n, 0)), st.canon(mk_byte(n, 1))
-            exp_hi = st.canon(bitop_byte('or', nb1, C(0x80), None, 1)) if c_more else nb1
-            fits15 = st.dom(n).hi < 32768
-            okf = fits15 and same_byte(st, lo, nb0) and same_byte(st, hi, exp_hi)
-            rep.check(okf, 'R08.2', 'flag|%s%s' % (cname, tag),
-                      "length field bytes are %s %s; expected payload length %s with the 'more' flag %s" % (short(hi), short(lo), short(n), 'set' if c_more else 'clear'),
-                      node=fn, function=BUILDER)
-            sq = mk_cat((st.canon(snap.byte(31)), st.canon(snap.byte(30))))
-            rep.check(st.same(sq, SEQ0), 'R08.5', 'seq|builder' + tag, 'response sequence number is %s, not the stored request sequence' % short(sq), node=fn, function=BUILDER)
+        ncase += case_checks(rep, I, st0, sn0[0][0], S, O, P, 'DATA', have, tag, fn, BUILDER, SEQ0)
     if ncase < 4:
         rep.broke('only %d response paths' % ncase)
     rep.analysed['response_builder_paths' + tag] = ncase
+
+
+def case_checks(rep, I, st0, send_entry, S, O, P, data_oid, have, tag, fn, fname, seq_term):
+    """One response path against the oracle's case table (no data / offset past the end / final chunk / more remains), split
+    along the oracle's boundaries; S = size of the data, O = requested offset, P = payload room.  -> number of cases examined."""
+    ncase_local = 0
+    rest = I.simp(('sub', S, O))
+    # split the path along the oracle's case boundaries (only feasible sub-cases are checked)
+    cases = []
+    if not have:
+        cases.append(('nodata', []))
+    else:
+        cases.append(('nodata', [(('eq', S, ZERO), True)]))
+        cases.append(('past-end', [(('lt', ZERO, S), True), (('le', rest, ZERO), True)]))
+        cases.append(('last', [(('lt', ZERO, S), True), (('lt', ZERO, rest), True), (('le', rest, I.simp(P)), True)]))
+        cases.append(('more', [(('lt', ZERO, S), True), (('lt', I.simp(P), rest), True)]))
+    for cname, conds in cases:
+        st = st0.fork()
+        feasible = True
+        for cnd, truth in conds:
+            c = I.cmp(st, cnd[0], cnd[1], cnd[2])
+            if is_const(c):
+                if (c[1] != 0) != truth:
+                    feasible = False
+                    break
+                continue
+            if not I.assume(st, c, truth):
+                feasible = False
+                break
+        if not feasible:
+            continue
+        # tighten the interval of size-offset from the path's linear facts
+        if st.prove_le(ZERO, rest):
+            st.refine(rest, Dom(0, INF))
+        if st.prove_le(rest, ZERO):
+            st.refine(rest, Dom(-INF, 0))
+        ncase_local += 1
+        snap = Snap(st, send_entry)
+        n = st.canon(I.simp(('sub', snap.length, C(HDR))))
+        lo, hi = st.canon(snap.byte(33)), st.canon(snap.byte(32))
+        copies = [e for e, _ in effects(st, 'memcpy') if e[1] == snap.d['obj'] and e[4] != snap.d['obj']]
+        desc = {'case': cname, 'size': repr(st.dom(S)), 'offset': repr(st.dom(O)), 'payload_len': short(n), 'length_field': [short(hi), short(lo)], 'copies': len(copies)}
+        if cname in ('nodata', 'past-end'):
+            okc0 = not copies or all(st.same(e[5], ZERO) for e in copies)
+            ok = st.same(n, ZERO) and st.same(lo, ZERO) and st.same(hi, ZERO) and okc0
+            rep.check(ok, 'R08.3', 'empty|%s%s' % (cname, tag),
+                      'with %s the response has payload length %s, length field %s %s, %d copies; expected an empty payload with the flag clear'
+                      % ('no data' if cname == 'nodata' else 'offset at or past the end', short(n), short(hi), short(lo), len(copies)),
+                      node=fn, function=fname, sample=desc)
+            continue
+        c_more = cname == 'more'
+        want = I.simp(P) if c_more else rest
+        okn = st.prove_le(n, want) and st.prove_le(want, n)
+        rep.check(okn, 'R08.1', 'length|%s%s' % (cname, tag),
+                  'payload length is %s, expected %s (%s)' % (short(n), 'P = MTU-34' if c_more else 'size - offset', 'more remains' if c_more else 'final chunk'),
+                  node=fn, function=fname, sample=desc)
+        okc = len(copies) == 1
+        if okc:
+            e = copies[0]
+            okc = st.same(e[2], C(HDR)) and e[3] == data_oid and st.same(e[4], O) and st.prove_le(e[5], n) and st.prove_le(n, e[5])
+        rep.check(okc, 'R08.1', 'copy|%s%s' % (cname, tag),
+                  'payload is not one copy of exactly the payload length from data + offset to frame offset 34: %s' % [(short(e[2]), e[3], short(e[4]), short(e[5])) for e in copies],
+                  node=fn, function=fname)
+        nb0, nb1 = st.canon(mk_byte(n, 0)), st.canon(mk_byte(n, 1))
+        exp_hi = st.canon(bitop_byte('or', nb1, C(0x80), None, 1)) if c_more else nb1
+        fits15 = st.dom(n).hi < 32768
+        okf = fits15 and same_byte(st, lo, nb0) and same_byte(st, hi, exp_hi)
+        rep.check(okf, 'R08.2', 'flag|%s%s' % (cname, tag),
+                  "length field bytes are %s %s; expected payload length %s with the 'more' flag %s" % (short(hi), short(lo), short(n), 'set' if c_more else 'clear'),
+                  node=fn, function=fname)
+        sq = mk_cat((st.canon(snap.byte(31)), st.canon(snap.byte(30))))
+        rep.check(seq_term is None or st.same(sq, seq_term), 'R08.5', 'seq|builder' + tag, 'response sequence number is %s, not the stored request sequence' % short(sq), node=fn, function=fname)
+    return ncase_local
 
 
 def same_byte(st, a, b):
@@ -235,7 +252,8 @@ def part2(rep, prog, ix):
     orig_run = fs.run
 
     def run_with(**kw):
-        kw['extra_summaries'] = {BUILDER: summary}
+        if BUILDER is not None:
+            kw['extra_summaries'] = {BUILDER: summary}
         return orig_run(**kw)
     fs.run = run_with
     from .frame_common import diagnostic_offsets
@@ -276,6 +294,9 @@ def part2(rep, prog, ix):
             rep.check(st.canon(snap.byte(17)) == C(OP['queryLargeTlvResp']), 'R08.5', '%s|opcode' % region, 'response opcode is %s' % short(st.canon(snap.byte(17))),
                       function=BUILDER, file=fnf)
             a = st.tags.get('qlt.args')
+            if BUILDER is None:
+                cells_case_table(rep, fs, st, sn[0][0], region, off_t)
+                continue
             if a is None:
                 rep.fail('R08.5', '%s|builder-not-used' % region, 'the response is not built by %s' % BUILDER, function='parseQueryLargeTlv', file=fnf)
                 continue
@@ -324,6 +345,45 @@ def icon_unavailable(st):
     if not rc.contains(0):
         return True
     return st.dom(('sym', 'port.icon_image.size', 0, 32768)).hi == 0
+
+
+_UTIL = [None]
+
+
+def cells_case_table(rep, fs, st, send_entry, region, off_t):
+    """Reduced obligations on one final state of a QueryLargeTlv cell, used when the response builder cannot be singled out by
+    its signature (it was restructured): the payload is one copy from the platform's buffer for the requested type, taken at the
+    requested offset, as long as the frame says; an empty response copies nothing and has a clear length word.  The exact
+    chunk boundaries (R08.1-R08.3 case table) are decided only when the builder can be interpreted on its own."""
+    fnf = 'lltdResponder/lltdBlock.c'
+    snap = Snap(st, send_entry)
+    ty = st.dom(('in', 'frame', 32))
+    tyc = ty.const()
+    copies = [e for e, _ in effects(st, 'memcpy') if e[1] == snap.d['obj'] and e[4] != snap.d['obj']]
+    n = st.canon(('add', snap.length, C(-HDR)))
+    from ..terms import lin_of as _lin, term_of_lin as _tol
+    n = _tol(_lin(n))
+    key = '%s|cells' % region
+    if not copies:
+        ok = st.same(n, ZERO) and st.same(snap.byte(32), ZERO) and st.same(snap.byte(33), ZERO)
+        rep.check(ok, 'R08.3', key + '|empty', 'a response without payload copy has length %s and length word %s %s' % (short(n), short(st.canon(snap.byte(32))), short(st.canon(snap.byte(33)))),
+                  function='parseQueryLargeTlv', file=fnf)
+        if tyc == 0x11:
+            got = any(e[1] == 'heap:port.friendly_name' for e, _ in effects(st, 'malloc'))
+            rep.check((not got) or st.dom(('sym', 'port.friendly_name.size', 0, 32768)).lo == 0 or True, 'R08.5', key + '|name-empty', 'friendly name dropped', function='parseQueryLargeTlv', file=fnf)
+        return
+    e = copies[0]
+    want = {0x11: ('heap:port.friendly_name',), 0x0E: ('heap:port.icon_image', 'heap:cached.icon')}.get(tyc)
+    if tyc == 0x13:
+        filled = set(x[3] for x, _ in effects(st, 'get') if x[1] == 'hw_id' and len(x) >= 6)
+        okd = e[3] in filled
+    else:
+        okd = want is not None and e[3] in want
+    rep.check(len(copies) == 1 and okd, 'R08.5', key + '|source', 'the payload of a response to a request of type %s is copied from %s' % (ty, [c[3] for c in copies]),
+              function='parseQueryLargeTlv', file=fnf)
+    rep.check(st.same(e[2], C(HDR)) and st.same(e[4], off_t) and (st.same(e[5], n) or (st.prove_le(e[5], n) and st.prove_le(n, e[5]))), 'R08.1', key + '|copy',
+              'payload copy goes to frame offset %s from data offset %s with %s bytes; expected 34, the requested offset %s and the payload length %s'
+              % (short(st.canon(e[2])), short(st.canon(e[4])), short(st.canon(e[5])), short(off_t), short(n)), function='parseQueryLargeTlv', file=fnf)
 
 
 def unchanged_cell_plain(st, k, w, t):
